@@ -470,8 +470,19 @@ func encodeKey(v Val) string {
 	case Ar:
 		// uninterpreted injective tuple encoding key!N (inverse functions axiomatised in the preamble)
 		var es []string
+		allLit := true
+		var num int64
 		for i := int64(0); i < x.N; i++ {
-			es = append(es, vSelect(x.Arr, tInt(i)).(Sc).T)
+			e := vSelect(x.Arr, tInt(i)).(Sc).T
+			es = append(es, e)
+			if n, ok := isIntLit(e); ok && n >= 0 && n < 256 {
+				num = num*256 + n
+			} else {
+				allLit = false
+			}
+		}
+		if allLit {
+			return tInt(num) // key!N(a,b,..) = base-256 number (definitional axiom in the preamble)
 		}
 		return app(fmt.Sprintf("key!%d", x.N), es...)
 	}
